@@ -11,7 +11,11 @@ P = {
    '150k (quick) / 2.5M (thorough) generated runs of `zerv version` through the library entry point with nasty Unicode text in every free-text position, boundary numbers, all 22 presets and generated valid RON schemas, random override/bump/index flags; every successful output is judged by independent grammars and re-read by zerv; 1.5k/20k of the cases also go through the real binary to check prefix + exactly one line and agreement with the library call.',
    'Trusts oracle::semver / oracle::pep440. Only successful runs are judged (failures belong to C13). Known finding F16 is absorbed by exact signature.',
    "§6 C01"),
- "C02": (False, "", "", "", "§6 C02"),
+ "C02": (True,
+   'stateful model-based testing: proptest-generated git operation sequences executed against a real repository and an in-memory DAG model; the real binary is probed after steps and compared with ground truth known by construction plus independent version comparators',
+   "500 (quick) / 8000 (thorough) histories of up to 14/40 operations (commits with skewed dates, branches, detach, --no-ff and octopus merges, lightweight/annotated tags of every name class at any commit, unreachable tags, tag deletion, four kinds of dirt) are built with native git; `zerv version -C` is run for input formats auto/semver/pep440 and every reported fact (nearest tagged commit, highest tag on it, distance, dirty, branch, hashes, times, no-tag failure) is checked against the harness's own model of the DAG.",
+   "Ground truth = the harness's model of what it built (commit hashes read back with git rev-parse). git 2.39.5 only; no shallow clones/submodules/worktrees. Author date = committer date in generated commits.",
+   "§6 C02"),
  "C03": (True,
    "proptest generation of flow states judged by independent SemVer / PEP 440 comparators (bounds X.Y.Z < V < X.Y.(Z+1), exact value when clean), metamorphic distance-monotonicity pairs, pre-release-tag fixed point; real-git first-parent chains in C02's repository machinery",
    "Final tags x branches x distances x dirty flags x rule sets x post modes x hash lengths x standard presets x both formats are run through `zerv flow`; the output is ordered against the tag and the next patch release by comparators that share no code with zerv; pairs of distances in commit mode must give strictly increasing versions; a clean checkout at a pre-release tag of flow's own shapes must return the tag.",
